@@ -26,6 +26,24 @@ impl Feat {
             *self.c.entry(k).or_insert(0) += n;
         }
     }
+    /// dynamic key (interned; the key space is small and fixed)
+    pub fn add_dyn(&mut self, k: String, n: u32) {
+        use std::collections::HashMap;
+        use std::sync::Mutex;
+        static INTERN: Mutex<Option<HashMap<String, &'static str>>> = Mutex::new(None);
+        let mut g = INTERN.lock().unwrap();
+        let m = g.get_or_insert_with(HashMap::new);
+        let key: &'static str = match m.get(&k) {
+            Some(x) => x,
+            None => {
+                let l: &'static str = Box::leak(k.clone().into_boxed_str());
+                m.insert(k, l);
+                l
+            }
+        };
+        drop(g);
+        self.add(key, n);
+    }
     pub fn get(&self, k: &str) -> u32 {
         self.c.get(k).copied().unwrap_or(0)
     }
@@ -311,6 +329,14 @@ pub fn evaluate(prog: &Program, out: &RunOut) -> (Vec<Viol>, Feat) {
                     N::HANDOFF_READ => f.add("handoff_read", 1),
                     _ => f.add("terminate", 1),
                 }
+                if let (Some(_), Some(w)) = (op, waiter) {
+                    if n.kind != N::TERMINATE {
+                        // C04 coverage matrix: payload class x transfer path x waiter kind
+                        let path = if n.kind == N::HANDOFF_WRITE { "into_blocked_receiver" } else { "out_of_blocked_sender" };
+                        let wk = if ops[w].k.is_async() { "async" } else if ops[w].k.is_timed() { "timed" } else { "sync" };
+                        f.add_dyn(format!("matrix/{}/{}/{}", prog.pay.name(), path, wk), 1);
+                    }
+                }
                 if let (Some(i), Some(w)) = (op, waiter) {
                     let peer_async = ops[i].k.is_async();
                     let waiter_async = ops[w].k.is_async();
@@ -533,6 +559,13 @@ pub fn evaluate(prog: &Program, out: &RunOut) -> (Vec<Viol>, Feat) {
         }
         if o.k.is_send() && matches!(o.res, Res::Err(_) | Res::Bool(false)) {
             f.add("failed_send", 1);
+        }
+        if o.k.is_send() && matches!(o.res, Res::Unit | Res::Bool(true)) {
+            let gi = ops.iter().position(|x| std::ptr::eq(x, o)).unwrap_or(0);
+            let handed = handoffs.iter().any(|h| h.0 == gi && h.2 == N::HANDOFF_WRITE);
+            if !handed && a.on[gi].reg_send.is_none() {
+                f.add_dyn(format!("matrix/{}/through_buffer/-", prog.pay.name()), 1);
+            }
         }
         if let Res::Dropped(n) = o.res {
             f.add(if n == 0 { "future_drop_unpolled" } else { "future_drop_polled" }, 1);
